@@ -520,6 +520,9 @@ def walk(e, env):
         raise Inconclusive("op " + s)
     if e._is_vec:
         raise Inconclusive("vec")
+    if getattr(e, "_is_ptr", False):
+        # a pointer value: base + displacement (the segment is not part of the numeric value)
+        return (walk(e.base, env) + e.disp) & M(e.size)
     raise Inconclusive(type(e).__name__)
 
 
